@@ -55,10 +55,12 @@ func workerSearch(results []interface{}, ctrChanged chan<- struct{}, f func(int)
 			continue
 		}
 		i := atomic.AddInt64(ctr, -1)
+		// Only the workers that claimed a slot report back, and only once the result is visible,
+		// so that the caller receives exactly one notification per requested result.
 		if i >= 0 {
 			results[i] = res
+			ctrChanged <- struct{}{}
 		}
-		ctrChanged <- struct{}{}
 	}
 }
 
@@ -144,14 +146,18 @@ func (p *Pool) Search(count int, f func() interface{}) []interface{} {
 		results:    results,
 	}
 	cmdI := 0
+	// The number of notifications consumed so far. Every notification must be consumed,
+	// otherwise the worker sending it would stay blocked forever.
+	done := 0
 	for cmdI < p.workerCount {
 		select {
 		case p.commands <- cmd:
 			cmdI++
 		case <-ctrChanged:
+			done++
 		}
 	}
-	for atomic.LoadInt64(&ctr) > 0 {
+	for ; done < count; done++ {
 		<-ctrChanged
 	}
 
@@ -171,6 +177,7 @@ func (p *Pool) Parallelize(count int, f func(int) interface{}) []interface{} {
 	ctr := int64(count)
 	ctrChanged := make(chan struct{})
 	cmdI := 0
+	done := 0
 	for cmdI < count {
 		cmd := command{
 			search:     false,
@@ -187,9 +194,12 @@ func (p *Pool) Parallelize(count int, f func(int) interface{}) []interface{} {
 		case p.commands <- cmd:
 			cmdI++
 		case <-ctrChanged:
+			done++
 		}
 	}
-	for atomic.LoadInt64(&ctr) > 0 {
+	// Each task sends exactly one notification, and every one of them must be consumed,
+	// otherwise the worker sending it would stay blocked forever.
+	for ; done < count; done++ {
 		<-ctrChanged
 	}
 
